@@ -29,7 +29,7 @@ func init() {
 	}
 	Registry["C15"] = &Check{
 		Scenarios: c15Scenarios,
-		Rule: "Server.Serve with three connections plus a fourth offered after the fault; accept script: every placement of <=2 temporary accept errors among the offers; connection A suffers one fault from {handler panic, undecodable header with trailing bytes, disconnect in the middle of a message} at every position 1..3 of its three-message sequence; connections B, C and D exchange two request/answer pairs each with bodies that name their connection (the handler checks that the body belongs to the header); after A's fault the application registers a further handler on the running ServeMux; C and D are offered only after that, and C's first message is held inside its body until D has been served completely (so a read buffer shared across connections is overwritten); every ordering of environment steps, timers and blocking hand-overs at preemption bound 0 (quick: each accept placement with three of the nine fault/position pairs; thorough: the full product, and preemption bound 1 for the placement without accept errors); back-off sleeps run on the virtual clock. Three further scenarios (preemption bound 1, thorough 2) put the fault at the third message of a connection whose first handler has requested CloseNotify, so that the notifier goroutine is running when the connection fails.",
+		Rule: "Server.Serve with three connections plus a fourth offered after the fault; accept script: every placement of <=2 temporary accept errors among the offers; connection A suffers one fault from {handler panic, undecodable header with trailing bytes, disconnect in the middle of a message} at every position 1..3 of its three-message sequence; connections B, C and D exchange two request/answer pairs each with bodies that name their connection (the handler checks that the body belongs to the header); after A's fault the application registers a further handler on the running ServeMux, and the first handler of D also writes to A's (failed) diam.Conn, which must simply return an error; C and D are offered only after that, and C's first message is held inside its body until D has been served completely (so a read buffer shared across connections is overwritten); every ordering of environment steps, timers and blocking hand-overs at preemption bound 0 (quick: each accept placement with three of the nine fault/position pairs; thorough: the full product, and preemption bound 1 for the placement without accept errors); back-off sleeps run on the virtual clock. Three further scenarios (preemption bound 1, thorough 2) put the fault at the third message of a connection whose first handler has requested CloseNotify, so that the notifier goroutine is running when the connection fails.",
 		Assume: []string{"data-race freedom between visible operations (audited separately with -race)"},
 		QuickBudget: 150, ThoroughBudget: 2400,
 	}
@@ -45,6 +45,9 @@ type srvState struct {
 	mux     *diam.ServeMux
 	corrupt []string
 	registered bool
+	relayConn  diam.Conn
+	relayed    bool
+	relayErr   error
 }
 
 var srvSt *srvState
@@ -121,6 +124,7 @@ type srvOpts struct {
 	reports   bool           // start the error-report observer
 	defaultMux bool          // Server.Handler is nil: the package-level DefaultServeMux dispatches
 	notifyOn  string         // connection whose first handler requests CloseNotify (starts the pipe copier)
+	relayTo   string         // the late connection's first handler also writes to this (by then failed) connection's diam.Conn
 	registerLate bool        // a handler is registered at run time after the fault, before the late connection is offered
 	held      string         // late connection whose first message is cut inside its body; the rest follows only after heldAfter was fully answered
 	heldAfter string
@@ -148,6 +152,18 @@ func srvBody(o srvOpts) func() {
 			}
 			vs.Yield("handler-work")
 			name := o.names[int(m.Header.HopByHopID)-1]
+			if o.relayTo != "" {
+				if name == o.relayTo && st.relayConn == nil {
+					st.relayConn = c
+				}
+				if name == o.late && st.relayConn != nil && m.Header.EndToEndID == 1 {
+					// the handler of a healthy connection forwards something to the peer whose connection
+					// has failed: the write must fail with an error, nothing else
+					vs.Event("handler of %s relays to the failed connection %s", name, o.relayTo)
+					_, err := m.Answer(2001).WriteTo(st.relayConn)
+					st.relayErr, st.relayed = err, true
+				}
+			}
 			if o.notifyOn == name && m.Header.EndToEndID == 1 {
 				c.(diam.CloseNotifier).CloseNotify()
 			}
@@ -388,7 +404,7 @@ func c15Scenarios(tier string) []*Scenario {
 				}
 				pl, fault, pos := pl, fault, pos
 				o := srvOpts{names: []string{"A", "B", "C", "D"}, nmsg: 2, pattern: map[string]string{"B": "one", "C": "each", "D": "one"},
-					tempBefore: pl, late: "D", lateAfter: "A", panicAt: map[string]int{}, reports: true, held: "C", heldAfter: "D", registerLate: true}
+					tempBefore: pl, late: "D", lateAfter: "A", panicAt: map[string]int{}, reports: true, held: "C", heldAfter: "D", registerLate: true, relayTo: "A"}
 				if fault == "panic" {
 					o.panicAt["A"] = pos
 				}
@@ -443,7 +459,10 @@ func c15Scenarios(tier string) []*Scenario {
 					if st.served {
 						v = append(v, "Serve returned")
 					}
-					if !st.registered {
+					if st.relayed && st.relayErr == nil {
+					v = append(v, "a write to the failed connection's diam.Conn (from the handler of a healthy connection) reported success")
+				}
+				if !st.registered {
 					v = append(v, "the application's run-time handler registration (ServeMux.HandleFunc after the fault) never returned")
 				}
 				if st.lis.NAccepted != 4 {
